@@ -274,6 +274,9 @@ class Engine(  # pylint:disable=too-few-public-methods
                     # e.g.: np.intc -> np.int32
                     common_np_dtype = np.dtype(np_or_pd_dtype.name)
                     np_or_pd_dtype = common_np_dtype.type
+                elif is_pyarrow_dtype(np_or_pd_dtype):
+                    # pyarrow alias, e.g. "timestamp[ns][pyarrow]"
+                    return cls.dtype(np_or_pd_dtype)
 
             return engine.Engine.dtype(cls, np_or_pd_dtype)
 
